@@ -18,7 +18,15 @@ def gen_case(rng, tdir):
     ext = gen.rand_ext(rng)
     lang = rng.choice(gen.LANGS)
     if r < 0.66:
-        src = gen.gen_bytes(rng)
+        q = rng.random()
+        if q < 0.08:
+            src = gen.fit_length(rng, gen.gen_bytes(rng, 200))          # exact buffer-boundary lengths
+        elif q < 0.20:
+            src = gen.line_sequence(rng)                                # "document ends right after <line kind>", with and without final EOL
+        elif q < 0.215:
+            src = gen.repeated_blocks(rng)[1]                           # per-document counters and limits
+        else:
+            src = gen.gen_bytes(rng)
         family = rng.randrange(3)
         variant = rng.choice([0, 1, 1, 1, 2])
         if variant == 0 and fmt in (1, 6, 7, 8, 10):
